@@ -386,4 +386,38 @@ def checkValidPi (m : MDP) (p : Nat → Nat → Rat) : Bool :=
 def checkConsistentR (m : MDP) : Bool :=
   allLt m.S (fun s => allLt m.A (fun a => decide (m.R s a = sumTo m.S (fun s1 => m.T s a s1 * m.R3 s a s1))))
 
+
+/-! ## the ValueIteration object: parameters and the internal vector carried between calls -/
+
+/-- `tolerance_`, `horizon_`, `vParameter_` and the internal `v1_` (moved-from by every `return`: arbitrary content afterwards) -/
+structure VIObj where
+  tol : Rat
+  horizon : Nat
+  vParam : VF
+  v1 : VF
+
+inductive VIEvent where
+  /-- `setTolerance(e)`: throws, leaving the object as it was, when e < 0 -/
+  | setTolerance (e : Rat)
+  | setHorizon (h : Nat)
+  | setValueFunction (v : VF)
+  /-- `operator()(model)`; `movedFrom` is whatever `std::move(v1_)` leaves behind -/
+  | call (m : MDP) (rep : Rep) (movedFrom : VF)
+
+/-- one event; a call also yields its return value.  operator() reads `vParameter_` only: `v1_` is assigned on both branches of the
+    start-selection block before anything reads it (`Gen.C01.viStartSites`) -/
+def VIObj.step (o : VIObj) : VIEvent → VIObj × Option VIOut
+  | .setTolerance e => (if e < 0 then o else { o with tol := e }, none)
+  | .setHorizon h => ({ o with horizon := h }, none)
+  | .setValueFunction v => ({ o with vParam := v }, none)
+  | .call m rep junk => ({ o with v1 := junk }, some (valueIteration m rep o.horizon o.tol (some o.vParam)))
+
+def VIObj.run (o : VIObj) : List VIEvent → VIObj
+  | [] => o
+  | e :: es => (o.step e).1.run es
+
+def VIEvent.isSetter : VIEvent → Bool
+  | .call _ _ _ => false
+  | _ => true
+
 end AITB.MDP
